@@ -46,7 +46,7 @@ def run(ctx, replay=None):
               dict(shape="chain", max_env=3, env="ProfileEnv", flagsets="NoAllFlagSets"),
               dict(shape="star", max_env=3, env="SwitchEnv", flagsets="DefaultAndMissing"),
               dict(shape="deep", max_env=2),
-              dict(shape="deep", max_env=2, flagsets="DefaultAndMissing", env="EverythingEnv", alt="DeepAlt"),
+              dict(shape="deep", max_env=2, flagsets="DefaultAndMissing", env="IssuerEnv", alt="DeepAlt"),
               dict(shape="deep", max_env=0, flagsets="AllFlagSets", env="EverythingEnv", alt="DeepAlt", simulate="num=2000,depth=100"),
               dict(shape="chain", max_env=0, flagsets="AllFlagSets", env="EverythingEnv", simulate="num=4000,depth=100"),
               dict(shape="star", max_env=0, flagsets="AllFlagSets", env="EverythingEnv", simulate="num=2000,depth=100")]
